@@ -682,6 +682,7 @@ class Counters:
         self.fams = {}
         self.outcomes = set()
         self.nontrivial_traces = 0
+        self.sample_path = []
         self.problems = {}       # key -> [count, first (path, message)]
         self.maxdev = 0.0
 
@@ -758,6 +759,8 @@ def walk(st, depth, seed, ext, grow, path, fams, stack, cnt, first_only=None):
             cnt.traces += 1
             if len(set(f2)) >= 2:
                 cnt.nontrivial_traces += 1
+                if len(p2) > len(cnt.sample_path):
+                    cnt.sample_path = p2
     return cnt
 
 
